@@ -666,14 +666,17 @@ def run(env, rep):
                              "client": case.get("client", False)}, verdict, key=key)
     compare(env, rep, cases, lines, impl, what="session")
     rep.exhaustive_parts.append("all chunkings of %d short streams (<= 11 bytes)" % 17)
-    if malformed * 2 > len(cases):
-        raise HarnessError("more than half of the sessions end in an Abort (%d of %d)" % (malformed, len(cases)))
-    for need in ("F:event=Q", "F:event=R", "F:write=pong", "F:fail=released", "F:fail=aborted",
-                 "F:abort=Overly large message announced", "F:abort=Failed to parse message",
-                 "F:abort=No CSM received", "F:abort=Option not supported", "F:abort=Unknown critical option",
-                 "F:abort=Unknown signalling code"):
-        if not rep.hist.get(need):
-            raise HarnessError("generator never reached " + need)
+    # distribution gates (only meaningful when model and implementation agree; a disagreement is
+    # reported by ./check and must not be masked by a harness error)
+    if not rep.disagreements and not rep.oracle_failures:
+        if malformed * 2 > len(cases):
+            raise HarnessError("more than half of the sessions end in an Abort (%d of %d)" % (malformed, len(cases)))
+        for need in ("F:event=Q", "F:event=R", "F:write=pong", "F:fail=released", "F:fail=aborted",
+                     "F:abort=Overly large message announced", "F:abort=Failed to parse message",
+                     "F:abort=No CSM received", "F:abort=Option not supported", "F:abort=Unknown critical option",
+                     "F:abort=Unknown signalling code"):
+            if not rep.hist.get(need):
+                raise HarnessError("generator never reached " + need)
 
     # ---- X: _extract_message_size
     xs = x_cases(env)
